@@ -17,17 +17,20 @@ pub struct BuiltinWorker {
     pub mode: Mode,
     pub excl_lines_get: bool,
     pub excl_prefix_len: bool,
+    /// catalogue entries the compiler rejects (name, message)
+    pub broken: Vec<(&'static str, String)>,
 }
 
 impl BuiltinWorker {
     pub fn new(mode: Mode, excl: &[String]) -> Self {
         let rt = host::build_runtime();
         let cat = builtins::catalogue();
-        let pkg = builtins::compile_catalogue(&rt, &cat).expect("built-in catalogue compiles");
+        let (pkg, broken) = builtins::compile_catalogue_lenient(&rt, &cat).expect("built-in catalogue compiles");
         BuiltinWorker {
             rt,
             cat,
             pkg,
+            broken,
             mode,
             excl_lines_get: excl.iter().any(|e| e == "C17-F1"),
             excl_prefix_len: excl.iter().any(|e| e == "C10-F3"),
@@ -53,6 +56,11 @@ impl BuiltinWorker {
         let mut c = Choices::new(ctl);
         let k = c.below(self.cat.len());
         let name = self.cat[k].name;
+        if let Some((_, e)) = self.broken.iter().find(|(n, _)| *n == name) {
+            let mut f = Outcome::fail(format!("documented-usage-rejected:{name}"), format!("the compiler rejects the documented usage\n{}\n{e}", self.cat[k].src));
+            f.render = Some(self.cat[k].src.to_string());
+            return f;
+        }
         let mut o = Outcome::pass();
         o.classes.push(format!("builtin:{name}"));
         // three argument tuples per case
